@@ -35,6 +35,10 @@ struct Buf {
         bool noaccess = false;
 };
 
+// Hidden-state switch for C20: complements the pre-fill of every buffer that is allocated with a fill pattern
+// (outputs and not-yet-initialised objects); inputs are copied in afterwards and are not affected.
+static int g_fill_xor = 0;
+
 static inline uint8_t canary_at(const uint8_t *a) { return (uint8_t) ((((uintptr_t) a * 0x9E3779B1u) >> 11) ^ 0xA5); }
 
 struct FaultInfo {
@@ -81,7 +85,7 @@ struct Arena {
                 b.len = len;
                 for (uint8_t *q = b.rw; q < b.rw + b.rw_len; q++) *q = canary_at(q);
                 if (fill >= 0)
-                        for (size_t i = 0; i < len; i++) b.p[i] = (uint8_t) (fill + i * 131 + (i >> 8) * 7);
+                        for (size_t i = 0; i < len; i++) b.p[i] = (uint8_t) ((fill + i * 131 + (i >> 8) * 7) ^ g_fill_xor);
                 bufs.push_back(b);
                 return b.p;
         }
